@@ -195,6 +195,10 @@ def build_jobs():
     return jobs
 
 
+def _digest(snap):
+    return hashlib.sha256(repr(snap).encode()).hexdigest()[:20]
+
+
 def compute(job):
     """the computation a worker performs for one device"""
     import annet.api as api
@@ -228,10 +232,15 @@ def compute(job):
             ref_track.add(RefGen, DefGen)
             ref_track.config(RefGen, _od(rows[:len(rows) // 2]))
             ref_track.config(DefGen, _od(rows[len(rows) // 2:]))
+        # the compiled rulebook as this process hands it out (it may be compiled right here, after whatever the
+        # process compiled before), and the patch tree with everything it carries per row (context, sort keys)
+        from annet import rulebook
+        rb_digest = _digest(env.snapshot(rulebook.get_rulebook(job["hw"])))
         diff, pt = api._diff_and_patch(d, old, new, acl, None, False, ref_track=ref_track)
         cmds = env.cmd_list(job["hw"], pt)
         ordered = env.canon_tree(patching.Orderer.from_hw(job["hw"]).order_config(job["new"]))
-        return ("OK", cmds, env.canon_diff(diff), ordered)
+        return ("OK", cmds, env.canon_diff(diff), ordered, ("patch-tree", _digest(env.snapshot(pt.to_json()))),
+                ("rulebook", rb_digest))
     except MemoryError:
         return ("EXC", "MemoryError", "address-space limit of the simulated worker reached")
     except Exception as e:  # pylint: disable=broad-except
@@ -358,7 +367,10 @@ class Engine:
             v = ("rulebook-mutated", job["kind"], {"job": job["name"], "hw": hw.model})
         elif res != self.fresh[idx]:
             v = ("history-dependent-result", job["kind"],
-                 {"job": job["name"], "fresh": _short(self.fresh[idx]), "here": _short(res)})
+                 {"job": job["name"], "differs_in": [n for n, a, b in zip(
+                     ("status", "commands", "diff", "ordered config", "patch tree (rows, contexts, sort keys)",
+                      "compiled rulebook handed out"), self.fresh[idx], res) if a != b] or ["length"],
+                  "fresh": _short(self.fresh[idx]), "here": _short(res)})
         return res, v
 
     def run(self, ch):
